@@ -60,7 +60,7 @@ func (ld *Loaded) staticScans(id string) []*FuncResult {
 				has = true
 			}
 		}
-		if has && (fd.Kind == "atomic" || fd.Kind == "guarded_by" || fd.Kind == "published_by" || fd.Kind == "owned_by" || fd.Kind == "syncvalue" || fd.Kind == "elemsync" || fd.Kind == "storesconst" || fd.Kind == "mapvalues") {
+		if has && (fd.Kind == "atomic" || fd.Kind == "guarded_by" || fd.Kind == "published_by" || fd.Kind == "owned_by" || fd.Kind == "syncvalue" || fd.Kind == "elemsync" || fd.Kind == "storesconst" || fd.Kind == "mapvalues" || fd.Kind == "syncmapvalues") {
 			out = append(out, ld.protectScan(fd))
 			if fd.Kind != "atomic" {
 				continue
